@@ -104,102 +104,111 @@ Definition enter_scope (r : rstate) (k : skind) : res rstate := use_next_scope (
 
 Section Gen.
   Variable w : world.
+  (** [gen] is _code_gen one nesting level further down (see [code_gen_fuel] below). *)
+  Variable gen : cgstate -> list ast -> res (cgstate * list node).
 
-  (** _code_gen over a statement list; [gen_one] is the dispatch on node.kind. *)
-  Fixpoint code_gen_fuel (fuel : nat) (s : cgstate) (body : list ast) {struct fuel}
+  (** A body generated inside a fresh scope: append + use_next_scope, ScopeNode, [pre] (parameter
+      bindings / loop variable), the body, PopScopeNode, restore_scope. *)
+  Definition scoped (k : skind) (s : cgstate) (pre : rstate -> rstate * list node) (b : list ast)
     : res (cgstate * list node) :=
-    match fuel with
-    | O => Err ERecursion
-    | S f =>
-        let gen := code_gen_fuel f in
-        let scoped (k : skind) (s : cgstate) (pre : rstate -> rstate * list node) (b : list ast)
-            : res (cgstate * list node) :=
-          do r1 <- enter_scope (cg_r s) k;
-          let '(r2, prens) := pre r1 in
-          do x <- gen (cg_set_r s r2) b;
-          do r3 <- restore_scope (cg_r (fst x)) false;
-          Ok (cg_set_r (fst x) r3, NScope :: prens ++ snd x ++ [NPop]) in
-        let fix for_loop (n : nat) (k : Z) (v : str) (b : list ast) (s : cgstate)
-            : res (cgstate * list node) :=
-          match n with
-          | O => Ok (s, [])
-          | S n' =>
-              do x <- scoped SInternal s (fun r => (r, [NSymConst v k])) b;
-              do y <- for_loop n' (k + 1) v b (fst x);
-              Ok (fst y, snd x ++ snd y)
-          end in
-        let gen_one (s : cgstate) (a : ast) : res (cgstate * list node) :=
-          let r := cg_r s in
-          match a with
-          | ABlock b _ => gen s b
-          | ACompound b _ => scoped SPlain s (fun r => (r, [])) b
-          | AScope name b _ _ => scoped (SNamed name) s (fun r => (r, [])) b
-          | AMap args _ => do r' <- generate_map r args; Ok (cg_set_r s r', [])
-          | AMacro name params b _ _ =>
-              Ok ({| cg_r := r; cg_macros := dict_set (cg_macros s) name {| md_params := params; md_body := b |} |}, [])
-          | AMacroApply name args _ =>
-              match dict_get (cg_macros s) name with
-              | None => Err EKey
-              | Some md =>
-                  do bound <- eval_macro_args w r (md_params md) args;
-                  scoped SPlain s (fun r => bind_macro_args r bound) (md_body md)
-              end
-          | ACodeLookup name fi =>
-              match value_for r name with
-              | Ok (VCode b _) => gen s b
-              | Ok (VInt _) => Err ENode
-              | Err k => Err k
-              | OutOfFuel => OutOfFuel
-              end
-          | AIf c th _ el _ =>
-              do cond <- if_condition w r c;
-              if cond then gen s th
-              else match el with Some (eb, _) => gen s eb | None => Ok (s, []) end
-          | AFor v lo hi b _ _ =>
-              do from <- eval_raw w r lo;
-              do to <- eval_raw w r hi;
-              for_loop (Z.to_nat (to - from)) from v b s
-          | AAtEq e fi => Ok (s, [NReloc e fi])
-          | AStarEq e fi => Ok (s, [NCodePos e fi])
-          | ATable path _ =>
-              do t <- w_table w path;
-              Ok (cg_set_r s (upd_scope r (r_cur r) (scope_set_table t)), [NTable])
-          | AText text fi =>
-              do t <- get_table r;
-              Ok (s, [NText (match t with Some f => f text | None => Err ENode end) fi])
-          | AAscii text _ => Ok (s, [NAscii text])
-          | AData k data fi => Ok (s, map (fun e => NData k e fi) data)
-          | ASymbol name e _ => Ok (s, [NSymbol name e false])
-          | AAssign name e _ => do v <- eval_raw w r e; Ok (cg_set_r s (add_symbol r name v), [])
-          | ALabel name _ => Ok (s, [NLabel name])
-          | AOpcode mode opcode size operand index fi =>
-              match mode with
-              | M_none => Ok (s, [NOpcode (lower_ascii opcode) mode None None None fi])
-              | _ =>
-                  match operand with
-                  | None => Err EAssert
-                  | Some e =>
-                      Ok (s, [NOpcode (lower_ascii opcode) mode (if indexed_mode mode then index else None)
-                                      (Some e) size fi])
-                  end
-              end
-          | AIncbin path _ => do c <- w_incbin w path; Ok (s, [NBinary path c])
-          | AIncludeIps path e _ =>
-              do delta <- eval_raw w r e;
-              do blocks <- w_ips w path delta;
-              Ok (s, [NIps blocks])
-          | AStruct _ _ _ => Err ERuntime                  (* "Left over node" *)
-          end in
-        (fix go (s : cgstate) (body : list ast) : res (cgstate * list node) :=
-           match body with
-           | [] => Ok (s, [])
-           | a :: rest =>
-               do x <- gen_one s a;
-               do y <- go (fst x) rest;
-               Ok (fst y, snd x ++ snd y)
-           end) s body
+    do r1 <- enter_scope (cg_r s) k;
+    let '(r2, prens) := pre r1 in
+    do x <- gen (cg_set_r s r2) b;
+    do r3 <- restore_scope (cg_r (fst x)) false;
+    Ok (cg_set_r (fst x) r3, NScope :: prens ++ snd x ++ [NPop]).
+
+  (** generate_for: for k in range(from, to) *)
+  Fixpoint for_loop (n : nat) (k : Z) (v : str) (b : list ast) (s : cgstate) : res (cgstate * list node) :=
+    match n with
+    | O => Ok (s, [])
+    | S n' =>
+        do x <- scoped SInternal s (fun r => (r, [NSymConst v k])) b;
+        do y <- for_loop n' (k + 1) v b (fst x);
+        Ok (fst y, snd x ++ snd y)
+    end.
+
+  (** The dispatch on node.kind (the [generators] table). *)
+  Definition gen_one (s : cgstate) (a : ast) : res (cgstate * list node) :=
+    let r := cg_r s in
+    match a with
+    | ABlock b _ => gen s b
+    | ACompound b _ => scoped SPlain s (fun r => (r, [])) b
+    | AScope name b _ _ => scoped (SNamed name) s (fun r => (r, [])) b
+    | AMap args _ => do r' <- generate_map r args; Ok (cg_set_r s r', [])
+    | AMacro name params b _ _ =>
+        Ok ({| cg_r := r; cg_macros := dict_set (cg_macros s) name {| md_params := params; md_body := b |} |}, [])
+    | AMacroApply name args _ =>
+        match dict_get (cg_macros s) name with
+        | None => Err EKey
+        | Some md =>
+            do bound <- eval_macro_args w r (md_params md) args;
+            scoped SPlain s (fun r => bind_macro_args r bound) (md_body md)
+        end
+    | ACodeLookup name fi =>
+        match value_for r name with
+        | Ok (VCode b _) => gen s b
+        | Ok (VInt _) => Err ENode
+        | Err k => Err k
+        | OutOfFuel => OutOfFuel
+        end
+    | AIf c th _ el _ =>
+        do cond <- if_condition w r c;
+        if cond then gen s th
+        else match el with Some (eb, _) => gen s eb | None => Ok (s, []) end
+    | AFor v lo hi b _ _ =>
+        do from <- eval_raw w r lo;
+        do to <- eval_raw w r hi;
+        for_loop (Z.to_nat (to - from)) from v b s
+    | AAtEq e fi => Ok (s, [NReloc e fi])
+    | AStarEq e fi => Ok (s, [NCodePos e fi])
+    | ATable path _ =>
+        do t <- w_table w path;
+        Ok (cg_set_r s (upd_scope r (r_cur r) (scope_set_table t)), [NTable])
+    | AText text fi =>
+        do t <- get_table r;
+        Ok (s, [NText (match t with Some f => f text | None => Err ENode end) fi])
+    | AAscii text _ => Ok (s, [NAscii text])
+    | AData k data fi => Ok (s, map (fun e => NData k e fi) data)
+    | ASymbol name e _ => Ok (s, [NSymbol name e false])
+    | AAssign name e _ => do v <- eval_raw w r e; Ok (cg_set_r s (add_symbol r name v), [])
+    | ALabel name _ => Ok (s, [NLabel name])
+    | AOpcode mode opcode size operand index fi =>
+        match mode with
+        | M_none => Ok (s, [NOpcode (lower_ascii opcode) mode None None None fi])
+        | _ =>
+            match operand with
+            | None => Err EAssert
+            | Some e =>
+                Ok (s, [NOpcode (lower_ascii opcode) mode (if indexed_mode mode then index else None)
+                                (Some e) size fi])
+            end
+        end
+    | AIncbin path _ => do c <- w_incbin w path; Ok (s, [NBinary path c])
+    | AIncludeIps path e _ =>
+        do delta <- eval_raw w r e;
+        do blocks <- w_ips w path delta;
+        Ok (s, [NIps blocks])
+    | AStruct _ _ _ => Err ERuntime                  (* "Left over node" *)
+    end.
+
+  (** _code_gen: the statements of one list, in order. *)
+  Fixpoint gen_list (s : cgstate) (body : list ast) : res (cgstate * list node) :=
+    match body with
+    | [] => Ok (s, [])
+    | a :: rest =>
+        do x <- gen_one s a;
+        do y <- gen_list (fst x) rest;
+        Ok (fst y, snd x ++ snd y)
     end.
 End Gen.
+
+(** Nesting (blocks, macro expansion, code splices) is bounded by the depth fuel. *)
+Fixpoint code_gen_fuel (w : world) (fuel : nat) (s : cgstate) (body : list ast) {struct fuel}
+  : res (cgstate * list node) :=
+  match fuel with
+  | O => Err ERecursion
+  | S f => gen_list w (code_gen_fuel w f) s body
+  end.
 
 Definition cg_depth : nat := 300.
 
